@@ -562,8 +562,7 @@ func runCheck(spec *Spec, tier string) int {
 		b = prepareGen(spec, spec.Flavours, gs, spec.GenN)
 		for _, fl := range spec.Flavours {
 			runs, budget := tp.Runs, tp.Budget
-			budget /= time.Duration(rounds)
-			if fl == "race" {
+			if fl == "race" || fl == "sim" {
 				runs = tp.RaceRuns
 				if tier == "thorough" {
 					budget = tp.Budget / 3
@@ -571,6 +570,7 @@ func runCheck(spec *Spec, tier string) int {
 			} else if tier == "thorough" && len(spec.Flavours) > 1 {
 				budget = tp.Budget * 2 / 3
 			}
+			budget /= time.Duration(rounds)
 			fstart := time.Now()
 			rs, probs := runWorkers(spec, b, fl, tier, ncpu, runs, budget, nil)
 			problems = append(problems, probs...)
